@@ -526,7 +526,8 @@ theorem View.swap_eq (a b : View) (m : Mem α) (ha : a.lay.WF) (hb : b.lay.WF) (
   cases hl : a.lay with
   | nil => exact absurd hl hne
   | cons d l =>
-    simp only [View.ext_eqv_of_exts_eq hext hne, if_true, hab, hae, hbb, Option.bind_eq_bind, Option.bind_some]
+    have heqv : Exts.eqv a.exts b.exts = true := by rw [hext]; exact Exts.eqv_refl _
+    simp only [heqv, if_true, hab, hae, hbb, Option.bind_eq_bind, Option.bind_some]
     have hlen : (ae.diff ab).toNat = (boxIndices a.exts).length := by
       rw [hadiff, ← boxIndices_length a ha]; simp
     rw [hlen]
@@ -620,7 +621,8 @@ theorem View.assign_eq (dst src : View) (m : Mem α) (hd : dst.lay.WF) (hs : src
   cases hl : dst.lay with
   | nil => exact absurd hl hne
   | cons d l =>
-    simp only [View.ext_eqv_of_exts_eq hext hne, if_true]
+    have heqv : Exts.eqv dst.exts src.exts = true := by rw [hext]; exact Exts.eqv_refl _
+    simp only [heqv, if_true]
     exact ElemRange.assign_ofView dst src m hd hs hext
 
 theorem View.assignT_eq (dst src : View) (m : Mem α) (hd : dst.lay.WF) (hs : src.lay.WF) (hne : dst.lay ≠ [])
